@@ -181,6 +181,10 @@ def run(res):
           for i in range(6 if quick else 80)]
     for r in fw.run_parallel(C03.scene_case, c3):
         res.absorb(r)
+    # direct sound of several receivers in one call when an earlier listed one is beyond the histogram end
+    import props.C11 as C11
+    for r in fw.run_parallel(C11.direct_range_case, [dict(seed=res.seed + 2, idx=i) for i in range(6 if quick else 80)]):
+        res.absorb(r)
     import props.C01 as C01
     for r in fw.run_parallel(C01.kernel_case, [dict(seed=res.seed + 1, idx=i) for i in range(30 if quick else 400)]):
         res.absorb(r)
@@ -198,7 +202,10 @@ def replay(res, payload):
         case = f.get("case", {})
         import props.C19 as C19
         import props.C01 as C01
-        if "shape" in case and "kind" in case:
+        if case.get("direct_range"):
+            import props.C11 as C11
+            res.absorb(fw.run_parallel(C11.direct_range_case, [dict(seed=case["seed"], idx=case["idx"])])[0])
+        elif "shape" in case and "kind" in case:
             import props.C03 as C03
             res.absorb(C03.scene_case(dict(seed=case["seed"], idx=case["idx"], kind=case["kind"], max_patches=30)))
         elif "mode" in case:
